@@ -203,6 +203,12 @@ def generated_mem_blocks(tier):
         for k, o in zip(ks, os_):
             b += ["PUSH " + o, k]
         out.append(' '.join(b))
+    # a load whose value is annihilated by a rule (or simply dropped) next to a load that stays, then a store (F25)
+    for ld, st in (("MLOAD", "MSTORE"), ("SLOAD", "SSTORE"), ("MLOAD", "MSTORE8")):
+        for kill in ("DUP1 SUB", "POP PUSH 0", "PUSH 0 MUL", "PUSH 0 AND"):
+            out.append("DUP1 %s %s DUP3 %s ADD SWAP2 %s" % (ld, kill, ld, st))
+            out.append("DUP1 %s %s DUP2 %s ADD SWAP2 SWAP1 %s" % (ld, kill, ld, st))
+            out.append("DUP2 %s %s DUP2 %s ADD SWAP2 %s" % (ld, kill, ld, st))
     out += ["PUSH 10 MSTORE PUSH 10 MLOAD PUSH 14 MSTORE", "DUP1 PUSH 10 MSTORE PUSH 14 MSTORE", "DUP1 PUSH 1f MSTORE8 PUSH 0 MSTORE",
             "DUP1 PUSH 0 MSTORE PUSH 1f MSTORE8",                     # same value stored at overlapping, different positions (F24)
             "PUSH 1 SSTORE PUSH 2 SSTORE SSTORE", "PUSH 1 SSTORE SWAP1 SSTORE PUSH 1 SSTORE", "SWAP1 PUSH 2 SSTORE PUSH 1 SSTORE SSTORE",
